@@ -1,6 +1,7 @@
 """Engine: scheduling of worlds, forking on symbolic decisions, merging at loop heads, solver
 queries, statistics.  See DESIGN §2."""
 import hashlib
+import os
 import heapq
 import inspect
 import time
@@ -121,7 +122,8 @@ class Engine:
     def __init__(self, interp_prefixes=("bibtexparser", "copy", "pysym.prelude", "checks.", "__main__"), merge=True, step_limit=2_000_000,
                  max_frames=400, timeout=None):
         self.interp_prefixes = tuple(interp_prefixes)
-        self.interp_files = ("/repo/bibtexparser/",)
+        self.repo_root = os.environ.get("VERIF_REPO", "/repo").rstrip("/")
+        self.interp_files = (self.repo_root + "/bibtexparser/",)
         self.extra_interp = set()
         self.owned_classes = set()
         self.native_models = {}     # callable -> fn(interp, W, args, kwargs)
@@ -179,7 +181,7 @@ class Engine:
         out = []
         for code, fn in self.codes_seen.items():
             fname = code.co_filename
-            if not fname.startswith("/repo/"):
+            if not fname.startswith(self.repo_root + "/"):
                 continue
             out.append({"function": getattr(code, "co_qualname", code.co_name), "file": fname,
                         "line": code.co_firstlineno,
